@@ -303,7 +303,9 @@ def _case_subdivide(ctx: Ctx, inp, suite="subdivide"):
     shard = (torch.arange(numel, dtype=torch.float64) % 97).reshape(sizes).to(_tdtype(dtype))
     valid = len(offsets) == len(sizes) and len(sizes) > 0 and 0 <= dim < len(sizes) and mx > 0 and all(s > 0 for s in sizes)
     try:
-        res = P.subdivide_shard(shard=shard, offsets=list(offsets), sizes=list(sizes), dim=dim, max_shard_sz_bytes=mx)
+        # a sharding dim may be given from the end (ChunkShardingSpec(dim=-1)): same dimension, negative spelling
+        real_dim = dim - len(sizes) if (inp.get("neg") and valid) else dim
+        res = P.subdivide_shard(shard=shard, offsets=list(offsets), sizes=list(sizes), dim=real_dim, max_shard_sz_bytes=mx)
         impl = {"subs": [[o[dim] - offsets[dim], z[dim], list(o), list(z)] for _, o, z in res]}
     except Exception as e:  # noqa: BLE001
         res, impl = None, {"err": _err_name(e)}
@@ -376,7 +378,8 @@ def _subdivide_suite(ctx: Ctx):
         dim = rng.randrange(nd)
         dtype = rng.choice(DTYPES)
         mx = rng.choice(_thresholds(rng, sizes, dim, ELEM[dtype]))
-        _case_subdivide(ctx, {"kind": "subdivide", "offsets": offsets, "sizes": sizes, "dim": dim, "max": mx, "dtype": dtype})
+        _case_subdivide(ctx, {"kind": "subdivide", "offsets": offsets, "sizes": sizes, "dim": dim, "max": mx, "dtype": dtype,
+                              "neg": rng.random() < 0.3})
     for _ in range(ctx.n(40, 400)):   # error stream
         nd = rng.choice([1, 2, 3])
         offsets, sizes = _rand_box(rng, nd, 0)
